@@ -1,4 +1,5 @@
 import Yaql.Model.Value
+import Yaql.Model.FloatRound
 /-!
 Scalar operators of yaql (`math.py`, `common.py`, `strings.py`, `boolean.py`, the string side of
 `collections.py`'s `*`) on null / booleans / integers / floats / strings.
@@ -22,6 +23,7 @@ Scalar operators of yaql (`math.py`, `common.py`, `strings.py`, `boolean.py`, th
 * Error classes are the exception classes the real code raises.
 -/
 namespace Yaql.Scalar
+open Yaql.FloatRound (Ext)
 
 inductive Err where
   | noMatching      -- NoMatchingFunctionException
@@ -66,98 +68,26 @@ def ofValue? : Value → Option SVal
   | .str s => some (.str s)
   | _ => none
 
-/-! ### doubles as exact numbers -/
+/-! ### doubles as exact numbers
 
-/-- a double (or an integer) as an extended exact number; `fin z` is the number `z / 2^1074` -/
-inductive Ext where
-  | nan | ninf | fin (z : Int) | pinf
-deriving Repr, DecidableEq, Inhabited
+`Ext`, `decode`, the order `Ext.lt/le/eq`, `negBits`, `encodeScaled` and the correctly rounded
+conversion `roundRat` live in `Yaql.Model.FloatRound` (shared with the lexer and the date/time model);
+they are re-exported here under their old names. -/
 
-def scale : Nat := 2 ^ 1074
-
-/-- the exact value of a binary64 bit pattern -/
-def decode (w : UInt64) : Ext :=
-  let n := w.toNat
-  let neg := n / 2 ^ 63 % 2 == 1
-  let e := n / 2 ^ 52 % 2048
-  let m := n % 2 ^ 52
-  if e == 2047 then
-    if m == 0 then (if neg then .ninf else .pinf) else .nan
-  else
-    let mag : Nat := if e == 0 then m else (2 ^ 52 + m) * 2 ^ (e - 1)
-    .fin (if neg then -(mag : Int) else (mag : Int))
+export Yaql.FloatRound (Ext scale decode qnan signBit negBits encodeScaled)
 
 def extOfInt (i : Int) : Ext := .fin (i * (scale : Int))
 
-namespace Ext
-def lt : Ext → Ext → Bool
-  | .nan, _ => false
-  | _, .nan => false
-  | .ninf, .ninf => false
-  | .ninf, _ => true
-  | _, .ninf => false
-  | .pinf, _ => false
-  | .fin _, .pinf => true
-  | .fin a, .fin b => decide (a < b)
-
-def le : Ext → Ext → Bool
-  | .nan, _ => false
-  | _, .nan => false
-  | .ninf, _ => true
-  | .fin _, .ninf => false
-  | .pinf, .ninf => false
-  | _, .pinf => true
-  | .pinf, .fin _ => false
-  | .fin a, .fin b => decide (a ≤ b)
-
-def eq : Ext → Ext → Bool
-  | .ninf, .ninf => true
-  | .pinf, .pinf => true
-  | .fin a, .fin b => decide (a = b)
-  | _, _ => false
-end Ext
-
-def qnan : UInt64 := 0x7FF8000000000000
-
 def isNaNBits (w : UInt64) : Bool := decode w == .nan
 def isZeroBits (w : UInt64) : Bool := w.toNat % 2 ^ 63 == 0
-def signBit (w : UInt64) : Bool := w.toNat / 2 ^ 63 % 2 == 1
-/-- `-x` of a double: the sign bit flips (also of a zero or a NaN) -/
-def negBits (w : UInt64) : UInt64 := UInt64.ofNat ((w.toNat + 2 ^ 63) % 2 ^ 64)
 
-/-- a natural number of `len > 53` bits rounded to 53 bits, half to even: the 53-bit mantissa
-    and the exponent of its leading bit -/
-def rneParts (n len : Nat) : Nat × Nat :=
-  let sh := len - 53
-  let q := n / 2 ^ sh
-  let r := n % 2 ^ sh
-  let half := 2 ^ (sh - 1)
-  let q1 := if r > half || (r == half && q % 2 == 1) then q + 1 else q
-  if q1 == 2 ^ 53 then (2 ^ 52, sh + 1 + 52) else (q1, sh + 52)
-
-/-- `float(n)` for a natural number, without the sign bit: round to 53 bits, half to even;
-    `OverflowError` when the rounded value needs an exponent above 1023 -/
-def ofNatRNE (n : Nat) : Except Err Nat :=
-  if n == 0 then .ok 0
-  else if n.log2 + 1 ≤ 53 then
-    .ok ((n.log2 + 1023) * 2 ^ 52 + (n * 2 ^ (52 - n.log2) - 2 ^ 52))
-  else if (rneParts n (n.log2 + 1)).2 > 1023 then .error .overflow
-  else .ok (((rneParts n (n.log2 + 1)).2 + 1023) * 2 ^ 52 + ((rneParts n (n.log2 + 1)).1 - 2 ^ 52))
-
-/-- `float(i)` (`PyLong_AsDouble`) -/
+/-- `float(i)` (`PyLong_AsDouble`): the double nearest to the integer, ties to even
+    (`FloatRound.roundRat i 1`: `Props/FloatRound.lean` proves it exact on representable integers, nearest,
+    monotone); `OverflowError` when the rounded value is `2^1024` or more, i.e. from `2^1024 - 2^970` on -/
 def toFloat (i : Int) : Except Err UInt64 :=
-  match ofNatRNE i.natAbs with
-  | .ok b => .ok (UInt64.ofNat (b + if i < 0 then 2 ^ 63 else 0))
-  | .error e => .error e
-
-/-- the double whose exact scaled value is `r` (which must be representable: used for results of
-    `fmod`, which always are), with the given sign -/
-def encodeScaled (neg : Bool) (r : Nat) : UInt64 :=
-  let s := if neg then 2 ^ 63 else 0
-  if r < 2 ^ 52 then UInt64.ofNat (s + r)
-  else
-    let sh := r.log2 + 1 - 53
-    UInt64.ofNat (s + (sh + 1) * 2 ^ 52 + (r / 2 ^ sh - 2 ^ 52))
+  match FloatRound.floatOfInt i with
+  | some w => .ok w
+  | none => .error .overflow
 
 /-- C `fmod(x, y)` for `y` not zero: exact, sign of `x` -/
 def fmodBits (x y : UInt64) : UInt64 :=
